@@ -36,6 +36,7 @@ type input struct {
 	Max int      `json:"max"`
 	Ops []opIn   `json:"ops"`
 	Raw []string `json:"raw,omitempty"` // extra byte strings (hex) to run through ParseBatchMessage
+	Race bool    `json:"race,omitempty"` // force the schedule: timer fires while Close holds the mutex
 	Gen string   `json:"gen,omitempty"`
 }
 
@@ -48,8 +49,9 @@ type obsOut struct {
 
 type mirror struct {
 	input
-	Obs []obsOut `json:"obs"`
-	D   string   `json:"timer_d"`
+	Obs      []obsOut `json:"obs"`
+	D        string   `json:"timer_d"`
+	RaceCode *int     `json:"race_code,omitempty"`
 }
 
 // recLogger counts the two debug lines of message_buffer.go that reveal a dropped batch and a timer flush.
@@ -57,12 +59,18 @@ type recLogger struct {
 	logging.NoLog
 	drops atomic.Int64
 	fired atomic.Int64
+	// race mode: how long the "dropped pending message" line (logged by clearPending while the
+	// caller holds the buffer mutex) takes to return
+	dropDelay time.Duration
 }
 
 func (l *recLogger) Debug(msg string, _ ...zap.Field) {
 	switch msg {
 	case "dropped pending message":
 		l.drops.Add(1)
+		if l.dropDelay > 0 {
+			time.Sleep(l.dropDelay)
+		}
 	case "sent messages":
 		l.fired.Add(1)
 	}
@@ -87,6 +95,31 @@ func errCode(err error) int {
 		return codeTooLarge
 	}
 	return codeOther
+}
+
+// number of timer waits that ended without the timer firing (only under a broken implementation)
+var timerMisses atomic.Int64
+
+// closeRace forces: Send (arms the timer, D), Close: takes the mutex, clearPending finds the queue full
+// (capacity 0) and logs "dropped pending message"; the logger keeps that call busy until the timer has
+// fired, so the dispatcher goroutine is inside the timer callback waiting for the mutex when Close
+// reaches pendingTimer.Stop(). Returns 0 if Close returned, 7 if it did not.
+func closeRace() int {
+	for _, delay := range []time.Duration{300 * time.Millisecond, time.Second, 3 * time.Second} {
+		log := &recLogger{dropDelay: delay}
+		mb := pubsub.NewMessageBuffer(log, 0, 100, 2*time.Millisecond)
+		if err := mb.Send([]byte{1}); err != nil {
+			return codeOther
+		}
+		done := make(chan struct{})
+		go func() { _ = mb.Close(); close(done) }()
+		select {
+		case <-done:
+		case <-time.After(delay + 3*time.Second):
+			return codeHang
+		}
+	}
+	return codeOK
 }
 
 type execOp struct {
@@ -124,9 +157,16 @@ func execute(in input, ops []execOp, d time.Duration) (all []execOp, obs []execO
 		case "t":
 			if pendingCount > 0 && !closed {
 				firedBefore := log.fired.Load()
-				deadline := time.Now().Add(d + 4*time.Second)
+				wait := d + 3*time.Second
+				if timerMisses.Load() >= 3 {
+					wait = d + 100*time.Millisecond // the timer path is already known to be broken
+				}
+				deadline := time.Now().Add(wait)
 				for log.fired.Load() == firedBefore && time.Now().Before(deadline) {
 					time.Sleep(200 * time.Microsecond)
+				}
+				if log.fired.Load() == firedBefore {
+					timerMisses.Add(1)
 				}
 				// either way the timer is not armed any more (or never will fire)
 				burstStart = time.Now()
@@ -365,13 +405,22 @@ func run(in input, r *rand.Rand) emit.Case {
 		}
 		addParsed(x)
 	}
+	race := "(@None N)"
+	if in.Race {
+		rc := closeRace()
+		m.RaceCode = &rc
+		race = emit.Some(emit.N(uint64(rc)))
+		if rc != codeOK {
+			sig = "close-deadlocks-when-timer-fires-during-close"
+		}
+	}
 	coq := emit.App("mk", emit.N(uint64(in.Cap)), emit.N(uint64(in.Max)), emit.List("op", coqOps), emit.List("obs", coqObs),
-		emit.List("list N * option (list (list N))", parsed))
+		emit.List("list N * option (list (list N))", parsed), race)
 	kind := in.Gen
 	if kind == "" {
 		kind = "replay"
 	}
-	return emit.Case{Coq: coq, JSON: m, Nontrivial: nrecv >= 2 || len(in.Raw) > 0, Kind: kind, Sig: sig}
+	return emit.Case{Coq: coq, JSON: m, Nontrivial: nrecv >= 2 || len(in.Raw) > 0 || in.Race, Kind: kind, Sig: sig}
 }
 
 // ------------------------------------------------------------------------------------------ generators
@@ -550,6 +599,7 @@ func TestDriver(t *testing.T) {
 				rec(nil, 0)
 			}
 		}
+		inputs = append(inputs, input{Race: true, Gen: "close-during-timer-callback"})
 		for i := 0; i < env.N; i++ {
 			inputs = append(inputs, gen(r))
 		}
